@@ -391,6 +391,13 @@ pub fn run_c16(_args: &Args, tier: &str, seed: u64) -> Report {
         rep.eval();
         let c = code as u16;
         let via_header = IppHeader::new(IppVersion::v1_1(), c, 1).status_code();
+        // the decoded symbol must not depend on the other header fields
+        for (ver, id) in [(0x0100u16, 0u32), (0x0200, 7), (0x0202, u32::MAX), (0x0000, 1), (0xffff, 1)] {
+            let other = IppHeader::new(IppVersion(ver), c, id).status_code();
+            if other != via_header {
+                rep.violation(format!("C16:status:depends-on-header:{code:#06x}"), format!("status {code:#06x} decodes to {via_header:?} in a 1.1 header but to {other:?} with version {ver:#06x} / request-id {id}"), none());
+            }
+        }
         let direct = StatusCode::from_u16(c);
         let sym = format!("{via_header:?}");
         match reg::lookup(reg::STATUS, code) {
@@ -476,6 +483,24 @@ pub fn run_c16(_args: &Args, tier: &str, seed: u64) -> Report {
             match reg::lookup(reg::VALUE_TAGS, b) {
                 Some(e) if reg::names_entry(e, &format!("{v:?}")) && v as u32 == b => {}
                 other => rep.violation(format!("C16:value-tag:{b:#04x}"), format!("value tag {b:#04x} decodes to {v:?} (as {:#04x}); registry: {other:?}", v as u32), none()),
+            }
+        }
+    }
+    // a value decoded from tag byte b is emitted with tag byte b again (all 256 bytes, stand-alone decoder)
+    for b in 0..=255u8 {
+        rep.eval();
+        for len in [0usize, 1, 4, 8, 9, 11] {
+            if let Ok(v) = IppValue::parse(b, bytes::Bytes::from(vec![0u8; len])) {
+                let t = v.to_tag();
+                if t != b {
+                    rep.violation(format!("C16:emitted-tag-differs:{b:#04x}"), format!("a value decoded from tag {b:#04x} ({v:?}) is emitted with tag {t:#04x}"), none());
+                }
+                // and the attribute framing starts with that byte
+                let a = IppAttribute::new("x", v).to_bytes();
+                if a.first() != Some(&b) {
+                    rep.violation(format!("C16:emitted-tag-differs:{b:#04x}"), format!("attribute bytes for a value decoded from tag {b:#04x} start with {:?}", a.first()), none());
+                }
+                break;
             }
         }
     }
